@@ -392,6 +392,9 @@ class Report:
             print("  rule %-10s instances=%-5d floor=%-4d violations=%d  %s" % (rid, r["instances"], r["floor"], r["violations"], r["text"][:90]))
         print("%s tier=%s obligations=%d discharged=%d violations=%d known=%d wall=%.1fs" % (
             self.pid, self.tier, self.obligations, self.discharged, len(fresh), len(self.known_hits), wall))
+        if broken and (fresh or self.known_hits):
+            # instances are missing because earlier rules already failed for them: the run does not pass anyway
+            broken = []
         if broken:
             for rid, r in broken:
                 print("ANALYSIS-BROKEN property=%s rule %s matched %d instances, floor %d" % (self.pid, rid, r["instances"], r["floor"]))
